@@ -626,7 +626,10 @@ def response_coefficients(
         ResponseCoefficientsByPars: Object containing the response coefficients for the given parameters
 
     """
+    old_variables = None
     if variables is not None:
+        # The workers get copies of the model: the caller's initial values are restored below
+        old_variables = model.get_raw_variables()
         model.update_variables(variables)
 
     res = parallelise(
@@ -648,6 +651,8 @@ def response_coefficients(
         cache=cache,
         max_workers=max_workers,
     )
+    if old_variables is not None:
+        model.update_variables(old_variables)
 
     return ResponseCoefficientsByPars(
         variables=cast(pd.DataFrame, pd.concat({k: v.variables for k, v in res})),
